@@ -172,7 +172,7 @@ def key_pubkey():
         SECPKT, PUBPKT = E.VObj('pgpy.packet.packets.PrivKeyV4', 'secret-packet'), E.VObj('pgpy.packet.packets.PubKeyV4', 'public-packet')
         r.set('secretkey', '_key', SECPKT)
         r.hook('pgpy.packet.packets.PrivKeyV4', 'pubkey', scn.mconst(PUBPKT))          # contract proved above (PrivKeyV4.pubkey)
-        r.set('secretkey', 'ascii_headers', E.VDict([]))
+        r.set('secretkey', 'ascii_headers', E.VDict([(E.VStr(s='Comment'), E.VStr(s='of the private key'))]))
         sub, subpub = E.VObj(KEY, 'secretsub'), E.VObj(KEY, 'public-sub')
         r.hook(KEY, 'subkeys', lambda ex, st, o, a: [(st, E.VDict([(E.VStr(s='SUBID'), sub)]) if o.ref == 'secretkey' else E.VDict([]))])
         r.hook(KEY, 'pubkey', lambda ex, st, o, a: [(st, subpub if o.ref == 'secretsub' else o)])
@@ -208,6 +208,10 @@ def key_pubkey():
             r.oblige(s, 'attached:public-half-of-every-subkey,then-a-copy-of-EVERY-identity(user-ids-and-attributes),then-copies-of-the-key-signatures/p%d' % pi,
                      z3.BoolVal(refs == ['public-sub', 'copy-of-user-id', 'copy-of-user-attribute', 'copy-of-key-signature']))
             r.oblige(s, 'no-secret-object-is-attached/p%d' % pi, z3.BoolVal(not any(x is sub or x is SECPKT or x is me for x in att)))
+            hd_s, hd_p = s.heap.get(('secretkey', 'ascii_headers')), s.heap.get(('pub', 'ascii_headers'))
+            r.oblige(s, 'the-armor-headers-of-the-new-key-are-a-COPY(an-object-of-its-own,same-entries)/p%d' % pi,
+                     z3.BoolVal(isinstance(hd_p, E.VDict) and isinstance(hd_s, E.VDict) and hd_p is not hd_s and hd_p.cell != hd_s.cell
+                                and [(k.s, v.s) for k, v in hd_p.of(s)] == [(k.s, v.s) for k, v in hd_s.of(s)]))
             sib, back = s.heap.get(('secretkey', '_sibling')), s.heap.get(('pub', '_sibling'))
             r.oblige(s, 'the-halves-reference-each-other/p%d' % pi,
                      z3.BoolVal(isinstance(sib, E.VExt) and sib.name == 'weakref.ref' and sib.args[0] is v and isinstance(back, E.VExt) and back.args[0] is me))
